@@ -169,12 +169,34 @@ func runCase(c *ccase, r *res.Result) (string, string) {
 	states := make([]*wstate, 4)
 	var wg, wwg sync.WaitGroup
 	// cancellation modes
+	// cancellable: a context that is alive now and ends when the returned function is called. Several shapes, because the
+	// wrappers may look at more than Done(): no deadline at all, a deadline an hour away on the context itself, on its
+	// parent, cancellation arriving through the parent, values attached.
+	type ctxKey struct{}
+	cancellable := func(rng *rand.Rand) (context.Context, context.CancelFunc) {
+		switch rng.Intn(5) {
+		case 0:
+			r.Count("contexts_with_far_deadline", 1)
+			return context.WithTimeout(context.Background(), time.Hour)
+		case 1:
+			r.Count("contexts_with_far_deadline", 1)
+			parent, pc := context.WithDeadline(context.Background(), time.Now().Add(2*time.Hour))
+			ctx, cc := context.WithCancel(parent)
+			return ctx, func() { cc(); pc() }
+		case 2:
+			r.Count("contexts_cancelled_through_parent", 1)
+			parent, pc := context.WithCancel(context.Background())
+			ctx, cc := context.WithTimeout(context.WithValue(parent, ctxKey{}, 1), time.Hour)
+			return ctx, func() { pc(); cc() }
+		}
+		return context.WithCancel(context.Background())
+	}
 	mkctx := func(rng *rand.Rand, ws *wstate) (context.Context, func(), string) {
 		switch m := rng.Intn(10); {
 		case m < 4:
 			return context.Background(), func() {}, "live"
 		case m < 5:
-			ctx, cancel := context.WithCancel(context.Background())
+			ctx, cancel := cancellable(rng)
 			cancel()
 			atomic.StoreInt64(&ws.cancelledAt, time.Now().UnixNano())
 			return ctx, func() {}, "before"
@@ -184,7 +206,7 @@ func runCase(c *ccase, r *res.Result) (string, string) {
 			t := time.AfterFunc(d, func() { atomic.StoreInt64(&ws.cancelledAt, time.Now().UnixNano()) })
 			return ctx, func() { cancel(); t.Stop() }, "timeout"
 		default:
-			ctx, cancel := context.WithCancel(context.Background())
+			ctx, cancel := cancellable(rng)
 			d := time.Duration(rng.Intn(400)) * time.Microsecond
 			if m == 9 {
 				d = time.Duration(rng.Intn(20)) * time.Microsecond // around the start of the operation (watcher start window)
